@@ -7,6 +7,10 @@ re-emitted from the Go source on every run.  Modelled library semantics (trusted
 `errors.Is` walks the `%w` chain comparing sentinel identity; `status.Code`/`status.FromError`
 (grpc 1.55) find a gRPC status directly or anywhere down the chain (`errors.As`) and report
 `Unknown` otherwise; a status error has no `Unwrap` and `Is` only against other status errors;
+an error with two `%w` verbs / `errors.Join` has `Unwrap() []error` and is walked depth-first, left
+child first, by `errors.Is` and `errors.As`; an OS error (`*fs.PathError` around a `syscall.Errno`)
+is `errors.Is`-equal to its class sentinel through an `Is` method without being that sentinel (so it
+is not a key of the Go map `errorsToCode`) and carries no gRPC status;
 Go map iteration order is arbitrary (the table loop takes the table in any order as a parameter).
 Message texts are lists of segments so that occurrences of the embed marker can be counted the way
 `strings.Split` does; plain strings are assumed not to contain the marker (`Err.WF`).
@@ -27,6 +31,9 @@ inductive Err where
   | wrap (pre post : String) (e : Err)          -- fmt.Errorf(pre + "%w" + post, e)
   | embed (json : String) (e : Err)             -- EmbedObject(o, e), json = json.Marshal(o)
   | status (code : Code) (msg : Text)           -- status.Error(code, msg)
+  | osErr (c : Cls) (msg : String)              -- OS error value, errors.Is-equal to the sentinel of c
+  | wrap2 (pre mid post : String) (e1 e2 : Err) -- fmt.Errorf(pre+"%w"+mid+"%w"+post, e1, e2);
+                                                -- errors.Join(e1, e2) = wrap2 "" "\n" "" e1 e2
 deriving DecidableEq, Repr
 
 /-- Go: `errors.Is(err, class)` -/
@@ -36,12 +43,18 @@ def errorsIs : Err → Cls → Bool
   | .wrap _ _ e, t => errorsIs e t
   | .embed _ e, t => errorsIs e t
   | .status _ _, _ => false
+  | .osErr c _, t => c == t
+  | .wrap2 _ _ _ e1 e2, t => errorsIs e1 t || errorsIs e2 t
 
 /-- the gRPC status found by `status.FromError` (directly or via errors.As down the chain) -/
 def findStatus : Err → Option Code
   | .status c _ => some c
   | .wrap _ _ e => findStatus e
   | .embed _ e => findStatus e
+  | .wrap2 _ _ _ e1 e2 =>
+    match findStatus e1 with
+    | some c => some c
+    | none => findStatus e2
   | _ => none
 
 /-- Go: `status.Code(err)` for a non-nil error -/
@@ -54,6 +67,8 @@ def text : Err → Text
   | .wrap pre post e => .txt pre :: text e ++ [.txt post]
   | .embed j e => [.marker, .txt j, .marker, .txt ": "] ++ text e
   | .status c msg => .txt ("rpc error: code = " ++ c.name ++ " desc = ") :: msg
+  | .osErr _ m => [.txt m]
+  | .wrap2 pre mid post e1 e2 => .txt pre :: text e1 ++ [.txt mid] ++ text e2 ++ [.txt post]
 
 def lookup {α β : Type} [DecidableEq α] (k : α) : List (α × β) → Option β
   | [] => none
@@ -108,19 +123,30 @@ def extractObject (e : Err) : Option String :=
   | [_, mid, _] => some (String.join mid)
   | _ => none
 
-/-- `e` is a chain of `%w` wrappings / one embedding around the sentinel of class `c` -/
+/-- number of marker segments in a text -/
+def markers (t : Text) : Nat := (t.filter (· == .marker)).length
+
+/-- a class-less, status-less error whose text has no marker (e.g. `errors.New(msg)`, io.EOF) -/
+structure Plain (x : Err) : Prop where
+  noClass : ∀ t, errorsIs x t = false
+  noStatus : findStatus x = none
+  noMarker : markers (text x) = 0
+
+/-- `e` is a chain of `%w` wrappings / one embedding around the sentinel of class `c` or around an
+OS error of class `c`; a two-`%w` wrapping / `errors.Join` has a `Plain` error as the other child -/
 inductive Around (c : Cls) : Err → Prop
   | base : Around c (.cls c)
   | wrap {pre post e} : Around c e → Around c (.wrap pre post e)
   | embed {j e} : Around c e → Around c (.embed j e)
-
-/-- number of marker segments in a text -/
-def markers (t : Text) : Nat := (t.filter (· == .marker)).length
+  | os {m} : Around c (.osErr c m)
+  | wrap2l {pre mid post e x} : Around c e → Plain x → Around c (.wrap2 pre mid post e x)
+  | wrap2r {pre mid post e x} : Around c e → Plain x → Around c (.wrap2 pre mid post x e)
 
 /-- EmbedObject's precondition: the wrapped error's text has no marker yet -/
 def EmbedOK : Err → Prop
   | .wrap _ _ e => EmbedOK e
   | .embed _ e => markers (text e) = 0 ∧ EmbedOK e
+  | .wrap2 _ _ _ e1 e2 => EmbedOK e1 ∧ EmbedOK e2
   | _ => True
 
 end Errs
